@@ -202,7 +202,12 @@ func (e *DeploymentEnv) deploySteps(w *World, d *apps.Deployment, all []*apps.Re
 	if int(*nrs.Spec.Replicas) > replicas {
 		out = append(out, "newdown")
 	}
-	if oldTotal > 0 && (oldUnavailable || avail-1 >= replicas-maxUnavail) {
+	// kube-controller-manager's accounting (reconcileOldReplicaSets): budgets are computed on spec.replicas
+	// sums, so that scale-downs that have not materialised yet are already counted
+	minAvailable := replicas - maxUnavail
+	newUnavailable := int(*nrs.Spec.Replicas) - int(nrs.Status.AvailableReplicas)
+	maxScaledDown := total - minAvailable - newUnavailable
+	if oldTotal > 0 && maxScaledDown > 0 && (oldUnavailable || avail-minAvailable > 0) {
 		out = append(out, "down")
 	}
 	return out
